@@ -17,7 +17,10 @@ Oracles, all computed by pv.polyalg (exact Fractions) from the *text* the librar
        is defined and has the same truth value (exact Fractions; in rounding mode only where the
        output's truth value cannot be changed by perturbing its numerals by half a unit);
  (iv)  sets: the conjunction of the printed conditions has the same truth value as the conjunction
-       of the inputs at every such point; printed equalities match input equalities coefficient-wise.
+       of the inputs at every such point and at the points obtained by solving each input equality
+       for each fluent it is linear in (the other fluents on the grid); printed equalities match
+       input equalities coefficient-wise; without equalities every member matches and is matched.
+Failures carry the entry point and a defect-class tag (MATCHERS has one predicate per class).
 """
 import json
 import os
@@ -58,7 +61,8 @@ RULE = ("sub-space E: all expression trees with 1, 3, 5 (quick) / 1, 3, 5, 7 (th
         "fluent leaves numbered in first-occurrence order (<= 4 distinct, names rotated over 5 spellings), "
         "constants {0,1,-1,2,3,0.5,-0.25} (5-node trees, quick: {2,0.5,-1} with (non-constant, constant) operand "
         "order for + and *; 7-node trees: {2,-0.25}, same order rule), syntactic degree <= 3, divisor a non-zero "
-        "constant / fluent / product of two fluents, no constant-only subtrees (plus 4 constant-only expressions and 5 with a constant-only operand such as x*(5-2)); "
+        "constant / fluent / product of two fluents, no constant-only subtrees (plus 4 constant-only expressions and "
+        "5 with a constant-only operand such as x*(5-2)); "
         "each as a bare expression and as lhs of a condition with rhs rotating over {0, 1, 0.5, a used fluent, a "
         "new fluent} and operator rotating over < <= > >= plus '=' always (all 5 operators and 3 rhs for <= 3 "
         "nodes); digits {4,6} (quick) / {4,5,6} (thorough). sub-space R: c*x, c*x*y, c*x+k, c*x+c'*y with c from "
@@ -66,20 +70,25 @@ RULE = ("sub-space E: all expression trees with 1, 3, 5 (quick) / 1, 3, 5, 7 (th
         "rhs from {0, 2.5}, every digit setting 0..6. Entry points per input: "
         "simplify_complex_numeric_expression, simplify_inequality, simplify_equality, "
         "NumericalExpressionTree.simplify_complex_numerical_pddl_expression, Precondition.print(True, d) of the "
-        "single condition. Sets: 1-3 conditions from a menu of 6 linear equalities (= (+ a b) k) and 12 "
+        "single condition. Sets: 1-3 conditions from a menu of 6 linear equalities (= (+ a b) k) and 13 "
         "inequalities over <= 4 fluents (duplicates, implied and contradictory members, eliminable and "
         "non-eliminable equalities), all multisets within the size bound (quick: <= 1 inequality next to two "
         "equalities), digits {2,4,6} (E) / 0..6 (R menu). Default-digit configuration: NUMERIC_PRECISION in "
         "{unset, 3} in a fresh interpreter. non-trivial = some returned text differs from the plain prefix "
         "rendering of the input")
 ASSUMPTIONS = [
-    "the grid {-2,-1/2,0,1/2,1,3}^n is the ground truth for truth-value agreement; proportionality of exact "
-    "normal forms certifies agreement at all valuations where it holds",
+    "the grid {-2,-1/2,0,1/2,1,3}^n (for sets with equalities: plus points solved from each equality) is the "
+    "ground truth for truth-value agreement; proportionality of exact normal forms certifies agreement at all "
+    "valuations where it holds",
     "an output that is equivalent to the input without being a constant multiple of it (x*x*x <= 0 printed as "
     "x <= 0) would be reported as not proportional; no such output occurs, the library only applies ring identities",
     "valuations at which the input itself divides by zero are outside the quantifier; an output may be defined there",
     "rounding of a numeral means to the nearest multiple of 10^-d (error <= 0.5*10^-d + 1e-9); a term may vanish "
-    "only if its coefficient is within that bound of 0; any positive rescaling of a condition is accepted",
+    "only if its coefficient is within that bound of 0, a factor only if it is within that bound of 1; any "
+    "positive rescaling of a condition is accepted; errors are bounded on the coefficients of lhs - rhs after "
+    "normalisation, so two numerals whose errors cancel (2.99999 and 2.5 both printed as 2 at 0 digits) pass",
+    "exact equivalence is demanded only in sub-space E at digit settings where every coefficient of the input's "
+    "normal form is representable and no printed member needed rounding after rescaling (3*x = 1 -> x = 0.3333)",
     "comparison semantics is exact (no epsilon); in rounding mode a point is judged only if the printed "
     "condition's truth value is stable under half-unit perturbations of its numerals",
     "fluent spellings whose symbol names collide after deleting '-', '?', blanks and parentheses "
@@ -204,6 +213,7 @@ def _set_menus(sub):
             ["<=", "1", a],                                # numeral on the left
             ["<=", ["+", a, "0"], "3"],                    # same condition as the first, written differently
             [">=", b, ["*", "-0.25", a]],
+            ["<", ["-", a, b], "2"],                       # a - b: what a wrong-sign elimination would rewrite
         ]
     else:
         eqs = [
@@ -857,8 +867,18 @@ def judge_set(ctx: Ctx, entry, inputs, got, d, exact_space):
 
     # truth line on the conjunction
     out_err = []
+    in_monos = set()
+    for c in inputs:
+        in_monos.update(c.nf[0])
     for o in outs:
-        out_err.append(o.err_nf(rad))
+        n2, d2, en, ed = o.err_nf(rad)
+        if rad:
+            # a term of an input whose coefficient rounds to 0 may be absent from the printed member
+            en = dict(en)
+            for m in in_monos:
+                if m not in n2:
+                    en[m] = en.get(m, 0) + rad
+        out_err.append((n2, d2, en, ed))
     judged = skipped = sat = 0
     points = list(grid_points(fluents))
     if has_eq and len(inputs) > 1:
